@@ -157,6 +157,7 @@ func cmdCheck(args []string) int {
 	if s := os.Getenv("VERIF_SEED"); s != "" {
 		seed, _ = strconv.Atoi(s)
 	}
+	solverSeed = seed
 	root := "/verif"
 	if os.Getenv("GOVC_NOEVIDENCE") != "" {
 		// selftest runs (seeded changes on a scratch copy) must not overwrite the evidence of the real tree
